@@ -344,6 +344,8 @@ def omp_unwrap(n):
             if nxt is not None:
                 break
         if nxt is None:
+            if not any(c.get("kind") in ("CapturedStmt",) or c.get("kind", "").endswith("Stmt") for c in cfacts.kids(n)):
+                return {"kind": "NullStmt"}  # stand-alone directive (barrier, flush, taskwait)
             raise AnalysisError("OpenMP directive without an associated statement")
         n = nxt
     return n
@@ -959,6 +961,12 @@ class Ev:
                 return -self.expr(sub, env)
             if op in ("+", "__extension__"):
                 return self.expr(sub, env)
+            if op in ("!", "~"):
+                v = self.expr(sub, env)
+                cv = v.const_value()
+                if cv is not None and cv.denominator == 1:
+                    return Poly.const((0 if cv != 0 else 1) if op == "!" else ~int(cv))
+                return Poly.atom(("fn", op, (v.canon(),)))
             if op == "*":
                 ptr = self.pointer(sub, env)
                 return self.load(ptr, Poly(), env)
@@ -989,6 +997,14 @@ class Ev:
                     q = abs(int(cx)) % abs(int(cy))
                     return Poly.const(q if cx >= 0 else -q)
                 return Poly.atom(("fn", "imod", (x.canon(), y.canon())))
+            if op in ("&", "|", "^", "<<", ">>"):
+                x, y = self.expr(a, env), self.expr(b, env)
+                cx, cy = x.const_value(), y.const_value()
+                if cx is not None and cy is not None and cx.denominator == 1 and cy.denominator == 1 and (
+                        op not in ("<<", ">>") or 0 <= cy < 63):
+                    ix, iy = int(cx), int(cy)
+                    return Poly.const({"&": ix & iy, "|": ix | iy, "^": ix ^ iy, "<<": ix << iy, ">>": ix >> iy}[op])
+                return Poly.atom(("fn", op, (x.canon(), y.canon())))
             if op in ("<", ">", "<=", ">=", "==", "!=", "&&", "||"):
                 x, y = self.expr(a, env), self.expr(b, env)
                 cx, cy = x.const_value(), y.const_value()
@@ -1592,6 +1608,13 @@ class Ev:
         if r1 is not None or r2 is not None:
             if r1 is not None and r2 is not None and r1 == r2:
                 return r1
+            if r1 is not None and r2 is None and not r1.t and not has_else:
+                # `if (c) return;` in a void function: the rest of the body runs under !c
+                n0 = len(env["stores"])
+                env["stores"].extend(e1["stores"][n0:])
+                env["conds"].append("!(" + cond_txt + ")")
+                env.setdefault("early_returns", []).append(cond_txt)
+                return None
             raise AnalysisError("conditional return (%s)" % self.where(n))
         for tab in ("vals", "fields"):
             before = env[tab]
@@ -1641,6 +1664,11 @@ class Ev:
                     callee = cfacts.strip(cfacts.kids(rr)[0]) if rr.get("kind") == "CallExpr" else {}
                     env["allocs"][self.field_key(l, env)] = callee.get("referencedDecl", {}).get("name") or \
                         norm_c(self.tu.text_of(rr))
+                    if callee.get("referencedDecl", {}).get("name") == "calloc" and len(cfacts.kids(rr)) >= 2:
+                        try:
+                            env.setdefault("alloc_counts", {})[self.field_key(l, env)] = self.expr(cfacts.kids(rr)[1], env)
+                        except AnalysisError:
+                            pass
                 return
             if l.get("kind") != "DeclRefExpr":
                 raise AnalysisError("store to a pointer lvalue that is not a variable (%s)" % self.where(l))
@@ -2479,3 +2507,66 @@ def ratfun_equal(p, q):
     pn, pd = ratfun(p)
     qn, qd = ratfun(q)
     return pn.mul_raw(qd) == qn.mul_raw(pd)
+
+
+# ======================================================================================
+# 5. read-only lookup tables of fixed extent
+# ======================================================================================
+def const_table_uses(tu, fname):
+    """subscripts of file-scope constant arrays of fixed extent inside `fname`:
+    [ {table, extent, node, index: int|None, var, bound: ('const', hi) | ('runtime', text) | None} ]
+    bound describes the largest value the index can take: for an index that is a loop variable (plus a constant),
+    the bound of its canonical `for`; a bound that is itself a loop variable is followed outwards."""
+    body = tu.body(fname)
+    if body is None:
+        return []
+    local_ids = {p.get("id") for p in tu.params(fname)}
+    loops = {}  # induction decl id -> (lower node, upper node, strict)
+    for n in walk_stmts(body):
+        if n.get("kind") == "VarDecl":
+            local_ids.add(n.get("id"))
+        if n.get("kind") == "ForStmt":
+            ks = (n.get("inner") or []) + [{}] * 5
+            ev = Ev(tu)
+            c = ev._canonical_for(ks[:5] if len(n.get("inner") or []) >= 5 else ks, new_env())
+            if c is not None:
+                loops[c[0]] = (c[1], c[2], c[3])
+
+    def upper(node, depth=0):
+        """largest value of an integer expression: ('const', v) | ('runtime', text)"""
+        v = const_int(node)
+        if v is not None:
+            return ("const", v)
+        x = cfacts.strip(node)
+        if x.get("kind") == "DeclRefExpr" and x["referencedDecl"]["id"] in loops and depth < 4:
+            lo, hi, strict = loops[x["referencedDecl"]["id"]]
+            u = upper(hi, depth + 1)
+            if u[0] == "const":
+                return ("const", u[1] - (1 if strict else 0))
+            return ("runtime", u[1])
+        if x.get("kind") == "BinaryOperator" and x.get("opcode") in ("+", "-"):
+            a, b = cfacts.kids(x)
+            ua, cb = upper(a, depth + 1), const_int(b)
+            if ua[0] == "const" and cb is not None:
+                return ("const", ua[1] + cb if x["opcode"] == "+" else ua[1] - cb)
+            if cb is not None:
+                return ua
+        return ("runtime", norm_c(tu.text_of(node)))
+
+    out = []
+    for n in walk_stmts(body):
+        if n.get("kind") != "ArraySubscriptExpr":
+            continue
+        base = cfacts.strip(cfacts.kids(n)[0])
+        if base.get("kind") != "DeclRefExpr" or base["referencedDecl"].get("kind") != "VarDecl":
+            continue
+        if base["referencedDecl"]["id"] in local_ids:
+            continue
+        ty = base["referencedDecl"].get("type", {}).get("qualType", "")
+        m = re.search(r"\[(\d+)\]", ty)
+        if not m or "const" not in ty:
+            continue
+        idx = cfacts.kids(n)[1]
+        out.append({"table": base["referencedDecl"].get("name"), "extent": int(m.group(1)), "node": n,
+                    "index_text": norm_c(tu.text_of(idx)), "bound": upper(idx)})
+    return out
